@@ -476,6 +476,39 @@ pub fn find_root(v: &J) -> Result<FObj, String> {
     }
 }
 
+/// A hand-written Document that is a FLAT table: every leaf of the nested document under its full
+/// dotted path, nothing else.  `find` answers a key only if it is exactly such a path - the
+/// intermediate objects are not exposed (the style of flattened event records).
+pub struct FlatDoc(pub Vec<(String, Own)>);
+impl Document for FlatDoc {
+    fn find(&self, key: &str) -> Option<Value<'_>> {
+        self.0.iter().find(|(k, _)| k == key).map(|(_, v)| v.val())
+    }
+}
+fn flatten_into(prefix: &str, o: Own, out: &mut Vec<(String, Own)>) {
+    match o {
+        Own::Obj(ob) if !ob.0.is_empty() => {
+            for (k, v) in ob.0 {
+                let p = if prefix.is_empty() { k } else { format!("{}.{}", prefix, k) };
+                flatten_into(&p, v, out);
+            }
+        }
+        leaf => out.push((prefix.to_string(), leaf)),
+    }
+}
+pub fn flat_root(v: &J) -> Result<FlatDoc, String> {
+    let mut out = vec![];
+    match doc_own(v, false)? {
+        Own::Obj(ob) => {
+            for (k, v) in ob.0 {
+                flatten_into(&k, v, &mut out);
+            }
+        }
+        _ => return Err("root must be an object".into()),
+    }
+    Ok(FlatDoc(out))
+}
+
 /// A hand-written Document (not an Object): resolves whole keys itself by delegating to the
 /// trait's default path walk on the owned root.
 pub struct OwnDoc(pub OwnObj);
